@@ -27,6 +27,11 @@ def walk_start(prog, an, f):
     P = PE(f)
     out = []
     for header, body in f.loops().items():
+        from .c07 import index_walk
+        iw = index_walk(prog, am, f, header, body)
+        if iw is not None:
+            out.append((header, iw[0], iw[1], iw[2]))
+            continue
         for i in f.bbmap[header]["insts"]:
             if i["op"] != "phi" or not i["type"].endswith("*"):
                 continue
